@@ -708,6 +708,12 @@ func NewDatastoreRollbackAdapter(d *Datastore) *DatastoreRollbackAdapter {
 
 // TransactionRollback is adapted to the datastore.lowlevelTransactionSet() function
 func (dra *DatastoreRollbackAdapter) TransactionRollback(ctx context.Context, transaction *types.Transaction, dryRun bool) (*sdcpb.TransactionSetResponse, error) {
+	// the rollback of a transaction with a replace intent first puts the former running configuration back
+	if transaction.GetReplace() != nil {
+		if _, err := dra.d.replaceIntent(ctx, transaction, dryRun); err != nil {
+			return nil, err
+		}
+	}
 	return dra.d.lowlevelTransactionSet(ctx, transaction, dryRun)
 }
 
